@@ -23,6 +23,8 @@ Decision recorded: loss through the *largest* class face is allowed in the lower
 only names the smallest class - the library extends the grid as soon as the last class holds one particle, so
 that flux is bounded by one particle per m^3 and asserting its absence would be stricter than the code's documented design.
 """
+import numpy as np
+
 from vlib import core, precip_gen
 
 PROPERTY = 'C02'
@@ -60,6 +62,11 @@ def plan(tier, seed):
         if i % 4 == 1:          # small grids so that extension / re-meshing happens often
             cfg['pbm'].update({'cMax': 3e-9, 'bins': 30, 'minBins': 24, 'maxBins': 48, 'adaptive': True})
         cases.append({'cfg': cfg, 'weight': precip_gen.cfg_weight(cfg)})
+    # age, then dissolve completely above the solvus (added after seeded change C02-b: stale statistics of an emptied phase)
+    for j in range(4 if tier == 'quick' else 24):
+        rng = core.case_rng(seed, PROPERTY, 5000 + j)
+        cfg = precip_gen.gen_dissolution_config(rng, ['nialcr', 'alzr', 'nialcr', 'almgsi'][j % 4], tier)
+        cases.append({'cfg': cfg, 'weight': 4e4 * cfg['max_steps'] / 100})
     return cases
 
 
@@ -75,6 +82,11 @@ def run_case(case, R):
     if run.error is not None:
         R.observe('runs_ended_by_exception')
         R.info['error'] = '%s: %s' % (type(run.error).__name__, str(run.error)[:200])
+    if cfg.get('dissolution'):
+        pdn = run.model.pData
+        emptied = bool(np.any((np.max(pdn.precipitateDensity, axis=0) > 1) & (pdn.precipitateDensity[-1] < run.model.constraints.minNucleateDensity)))
+        R.observe('runs_with_complete_dissolution', int(emptied))
+        R.info['dissolved_completely'] = emptied
     R.info.update({'steps': run.steps, 'peak_fv': aux.peak_fv, 'remesh': mon.remesh_events, 'extend': mon.extend_events,
                    'system': cfg['system'], 'iterator': cfg['iterator'], 'segments': len(cfg['segments'])})
     R.set_nontrivial(aux.peak_fv > 1e-6 and run.steps >= 50)
